@@ -74,7 +74,7 @@ PROPS = {
                 focus={'compAdd', 'compDelete', 'compUpdate', 'subscribe', 'unsubscribe'},
                 topics=slice_of(['compAdd', 'compDelete', 'compUpdate', 'subscribe', 'unsubscribe'],
                                 outs={'compAddBcast', 'compDeleteBcast', 'compUpdateBcast', 'subscribeResp', 'unsubscribeResp', 'error'})),
-    'C14': dict(modules=['Hagall.Props.C14'], profiles=['custom', 'mixed', 'crowd'], n=(240, 4000), focus={'custom'},
+    'C14': dict(extra=['wire_harness'], tools=['drive', 'extract', 'wire'], modules=['Hagall.Props.C14'], profiles=['custom', 'mixed', 'crowd'], n=(240, 4000), focus={'custom'},
                 topics=slice_of(['custom'])),
     'C16': dict(extra=['conc_explore'], modules=['Hagall.Props.C16', 'Hagall.Props.C01Conc'], profiles=['module', 'mixed'], n=(240, 4000), focus={'action', 'assetAdd'},
                 topics=slice_of(['action', 'assetAdd', 'join', 'entityDelete', 'disconnect'],
@@ -105,7 +105,7 @@ PROPS['C03'] = dict(modules=['Hagall.Props.C03', 'Hagall.Props.C03Trace', 'Hagal
                                     or bool(d['outs'] & {'sessionState', 'vikjaState', 'odalState'})))
 
 PROPS['C01'] = dict(modules=['Hagall.Props.C01', 'Hagall.Props.C01Conc'], profiles=['mixed', 'comp', 'module', 'pose', 'join'], n=(300, 5000), focus={'join', 'entityAdd', 'compAdd', 'action', 'assetAdd'},
-                    extra=['conc_explore'],
+                    extra=['conc_explore', 'wire_harness'], tools=['drive', 'extract', 'wire'],
                     gen_args=['-flags', '-'],
                     topics=slice_of(ALL_TOPICS + ['disconnect'], outs=RELAYS | {'sessionState', 'vikjaState', 'odalState', 'compAddBcast', 'compDeleteBcast', 'compUpdateBcast'}))
 
